@@ -65,8 +65,8 @@ func c02ScFast(c *c02Ctx, e *c02Env, do c02Doer, rt *c02Route, sc *c02Script, cl
 	ok := c02JudgeFast(c, run, resp, class)
 	mo := sc.model(run.id, len(sc.Steps))
 	c.m.Case(fmt.Sprintf("%s|%s|st=%d|h=%d|w=%d|big=%v", c.obs, class, mo.status, len(mo.headers), mo.writes, len(mo.body) > 4096), ok)
-	if ok && c.m.WantSample() && mo.writes > 1 {
-		c.m.Sample(map[string]any{"obs": c.obs, "class": class, "route": rt.Path, "script": sc, "client_saw": resp.String()})
+	if ok && mo.writes > 1 && len(mo.headers) > 0 && class == "fast" && c.obs == "server" {
+		c.sampleOnce(class, map[string]any{"route": rt.Path, "script": sc, "client_saw": resp.String()})
 	}
 	return ok
 }
@@ -153,8 +153,8 @@ func c02ScLate(c *c02Ctx, e *c02Env, do c02Doer, rt *c02Route, sc *c02Script) (o
 		c.m.Count("late_panics_survived", 1)
 	}
 	c.m.Case(fmt.Sprintf("%s|%s|pre_committed=%v|pre_bytes=%v|late_writes=%d|hdrs=%d", c.obs, class, pre.committed, len(pre.body) > 0, late, len(pre.headers)), true)
-	if c.m.WantSample() && late > 0 && len(pre.body) > 0 {
-		c.m.Sample(map[string]any{"obs": c.obs, "class": class, "route": rt.Path, "timeout": rt.Timeout.String(), "script": sc, "client_saw": resp.String(), "handler_events": run.events()})
+	if late > 0 && len(pre.body) > 0 {
+		c.sampleOnce(class, map[string]any{"route": rt.Path, "timeout": rt.Timeout.String(), "script": sc, "client_saw": resp.String(), "handler_events": run.events()})
 	}
 	return true, resp
 }
@@ -257,8 +257,8 @@ func c02ScPanic(c *c02Ctx, e *c02Env, do c02Doer, rt *c02Route, sc *c02Script, r
 		return false
 	}
 	c.m.Case(fmt.Sprintf("%s|%s|st=%d|body=%v", c.obs, class, mo.status, len(mo.body) > 0), true)
-	if c.m.WantSample() && mo.committed && len(mo.body) > 0 {
-		c.m.Sample(map[string]any{"obs": c.obs, "class": class, "route": rt.Path, "script": sc, "client_saw": resp.String()})
+	if mo.committed && len(mo.body) > 0 {
+		c.sampleOnce(class, map[string]any{"route": rt.Path, "script": sc, "client_saw": resp.String()})
 	}
 	return true
 }
@@ -281,6 +281,9 @@ func c02ScRacing(c *c02Ctx, e *c02Env, do c02Doer, rt *c02Route, sc *c02Script) 
 		}
 	}
 	c.m.Case(fmt.Sprintf("%s|racing|%s|ctxwait=%v|refused=%d", c.obs, won, ctxwait, refused), ok)
+	if ok && (won == "handler" || refused > 0) {
+		c.sampleOnce("racing-"+won, map[string]any{"route": rt.Path, "timeout": rt.Timeout.String(), "script": sc, "client_saw": p.resp.String(), "handler_events": run.events()})
+	}
 	return ok
 }
 
@@ -356,8 +359,8 @@ func c02ScMaxConns(c *c02Ctx, e *c02Env, do c02Doer, rt *c02Route, n, k int, r *
 	}
 	c.m.Max("maxconns_max_inside", atomic.LoadInt64(&rt.maxInside))
 	c.m.Case(fmt.Sprintf("%s|maxconns|n=%d|k=%d", c.obs, n, k), true)
-	if c.m.WantSample() && n > 1 {
-		c.m.Sample(map[string]any{"obs": c.obs, "class": class, "route": rt.Path, "max_conns": n, "parked": n, "excess_rejected_503": k, "max_inside_observed": atomic.LoadInt64(&rt.maxInside)})
+	if n > 1 || c.obs == "server" {
+		c.sampleOnce(class, map[string]any{"route": rt.Path, "max_conns": n, "parked": n, "excess_rejected_503": k, "max_inside_observed": atomic.LoadInt64(&rt.maxInside)})
 	}
 	return true
 }
@@ -451,8 +454,8 @@ func c02ScMaxBytes(c *c02Ctx, e *c02Env, do c02Doer, rt *c02Route, length int, c
 		}
 	}
 	c.m.Case(fmt.Sprintf("%s|maxbytes|delta=%d|chunked=%v", c.obs, c02Clamp(int64(length)-rt.MaxBytes), chunked), true)
-	if c.m.WantSample() && over && int64(length) == rt.MaxBytes+1 {
-		c.m.Sample(map[string]any{"obs": c.obs, "class": class, "route": rt.Path, "max_bytes": rt.MaxBytes, "content_length": length, "client_saw": resp.String(), "handler_entered": run.entered()})
+	if over && int64(length) == rt.MaxBytes+1 {
+		c.sampleOnce(class, map[string]any{"route": rt.Path, "max_bytes": rt.MaxBytes, "content_length": length, "client_saw": resp.String(), "handler_entered": run.entered()})
 	}
 	return true
 }
